@@ -51,6 +51,9 @@ class PairSystem(System):
         for (w, d) in ((1, 1), (2, 2), (3, 2)) if quick else ((1, 1), (2, 2), (3, 2), (2, 3), (3, 3)):
             for s in ("table", "fnv"):
                 cfgs.append(dict(kind="cms", width=w, depth_=d, strat=s, nkeys=3, depth=4 if quick else 5, seed=seed, cost=4000))
+        # sketches with removals beyond what was added (net total can be 0 with non-zero counters)
+        cfgs.append(dict(kind="cms", width=3, depth_=2, strat="fnv", nkeys=2, depth=4 if quick else 5, seed=seed, free_remove=True, cost=4000))
+        cfgs.append(dict(kind="cms", width=2, depth_=2, strat="table", nkeys=2, depth=4 if quick else 5, seed=seed, free_remove=True, cost=4000))
         if seed:
             r = seed % len(cfgs)
             cfgs = cfgs[r:] + cfgs[:r]
@@ -94,7 +97,7 @@ class PairSystem(System):
             if cfg["kind"] != "bloom":
                 true = st.model["ta" if side == 0 else "tb"]
                 for i in range(len(keys)):
-                    if true[i] >= 1:
+                    if true[i] >= 1 or cfg.get("free_remove"):
                         evs.append(("remove", side, i, 1))
         return evs
 
@@ -351,9 +354,9 @@ class PairSystem(System):
                     bad("C12", "pair.join_total", {"order": order, "obs": recv.elements_added, "expected": sum(m["ta"]) + sum(m["tb"])})
                 for i, k in enumerate(keys):
                     c = call(recv.check, k)
-                    if c[0] != "ok" or c[1] < m["ta"][i] + m["tb"][i]:
+                    if (c[0] != "ok" or c[1] < m["ta"][i] + m["tb"][i]) and not cfg.get("free_remove"):
                         bad("C12", "pair.join_estimate_at_least_sum", {"order": order, "key": repr(k), "check": c})
-                    if (call(x.check, k)[1] or call(y.check, k)[1]) and not c[1]:
+                    if (call(x.check, k)[1] or call(y.check, k)[1]) and not c[1] and not cfg.get("free_remove"):
                         bad("C12", "pair.join_reports_either", {"order": order, "key": repr(k)})
             if "C14" in props and r[0] == "ok" and recv.elements_added != sum(m["ta"]) + sum(m["tb"]):
                 bad("C14", "pair.join_total", {"order": order, "obs": recv.elements_added, "expected": sum(m["ta"]) + sum(m["tb"])})
@@ -371,6 +374,9 @@ class PairSystem(System):
             others = {
                 "other_hash_same_first_row": CountMinSketch(width=cfg["width"], depth=cfg["depth_"], hash_function=later_rows_differ),
                 "other_width": CountMinSketch(width=cfg["width"] + 1, depth=cfg["depth_"], hash_function=hf),
+                # same number of counters, other shape
+                "other_shape_same_size": CountMinSketch(width=cfg["width"] * cfg["depth_"], depth=1, hash_function=hf)
+                if cfg["depth_"] > 1 else CountMinSketch(width=1, depth=max(2, cfg["width"]), hash_function=hf),
                 "other_depth": CountMinSketch(width=cfg["width"], depth=cfg["depth_"] + 1, hash_function=hf),
                 "other_hash": CountMinSketch(width=cfg["width"], depth=cfg["depth_"], hash_function=shifted_fnv),
             }
